@@ -41,7 +41,7 @@ func (r *recFs) step(s string) bool {
 }
 
 func (r *recFs) Log() []string { r.mu.Lock(); defer r.mu.Unlock(); return append([]string{}, r.log...) }
-func (r *recFs) Calls() int     { r.mu.Lock(); defer r.mu.Unlock(); return r.n }
+func (r *recFs) Calls() int    { r.mu.Lock(); defer r.mu.Unlock(); return r.n }
 
 func (r *recFs) Create(name string) (afero.File, error) {
 	if r.step("create(" + name + ")") {
@@ -78,19 +78,37 @@ func (r *recFs) OpenFile(name string, flag int, perm os.FileMode) (afero.File, e
 	}
 	return r.wrap(f, name), nil
 }
-func (r *recFs) Remove(name string) error    { r.step("remove(" + name + ")"); return r.inner.Remove(name) }
-func (r *recFs) RemoveAll(path string) error { r.step("removeall(" + path + ")"); return r.inner.RemoveAll(path) }
-func (r *recFs) Rename(o, n string) error    { r.step("rename(" + o + "," + n + ")"); return r.inner.Rename(o, n) }
+func (r *recFs) Remove(name string) error {
+	r.step("remove(" + name + ")")
+	return r.inner.Remove(name)
+}
+func (r *recFs) RemoveAll(path string) error {
+	r.step("removeall(" + path + ")")
+	return r.inner.RemoveAll(path)
+}
+func (r *recFs) Rename(o, n string) error {
+	r.step("rename(" + o + "," + n + ")")
+	return r.inner.Rename(o, n)
+}
 func (r *recFs) Stat(name string) (os.FileInfo, error) {
 	if r.step("fsstat(" + name + ")") {
 		return nil, errInjected
 	}
 	return r.inner.Stat(name)
 }
-func (r *recFs) Name() string                                 { return r.name }
-func (r *recFs) Chmod(name string, mode os.FileMode) error    { r.step("chmod(" + name + ")"); return r.inner.Chmod(name, mode) }
-func (r *recFs) Chown(name string, uid, gid int) error        { r.step("chown(" + name + ")"); return r.inner.Chown(name, uid, gid) }
-func (r *recFs) Chtimes(n string, a, m time.Time) error       { r.step("chtimes(" + n + ")"); return r.inner.Chtimes(n, a, m) }
+func (r *recFs) Name() string { return r.name }
+func (r *recFs) Chmod(name string, mode os.FileMode) error {
+	r.step("chmod(" + name + ")")
+	return r.inner.Chmod(name, mode)
+}
+func (r *recFs) Chown(name string, uid, gid int) error {
+	r.step("chown(" + name + ")")
+	return r.inner.Chown(name, uid, gid)
+}
+func (r *recFs) Chtimes(n string, a, m time.Time) error {
+	r.step("chtimes(" + n + ")")
+	return r.inner.Chtimes(n, a, m)
+}
 func (r *recFs) wrap(f afero.File, name string) afero.File {
 	if f == nil {
 		return nil
